@@ -62,7 +62,8 @@ Definition ok_or_diag {A} (m : pres A) : Prop :=
 (* Oracles for Python's own parser (author code is not modelled as Python):
      py_stmt_ok code    ast.parse(code) succeeds (used for `~` statements)
      py_call_shape args ast.parse("_temp_(" ++ args ++ ")") : number of positional arguments and
-                        the keyword names, None on SyntaxError *)
+                        the keyword names ("**" for a **kwargs entry, and "*" added when a starred positional
+                        argument is present), None on SyntaxError *)
 Record pyparse := mkPyparse {
   py_stmt_ok : string -> bool;
   py_call_shape : string -> option (nat * list string) }.
